@@ -46,7 +46,7 @@ ASSUMPTIONS = [
     "never-released blockers are only generated where the task group must abort (failing/cancelled body or a failing sibling)",
     "spawn from a plain task after its scope ended is unspecified and not generated",
 ]
-MINIMUMS = {"monitor:children-done-at-exit": 3000, "pending_at_body_end": 1500, "aborted_groups": 1000, "grandchildren": 100, "monitor:forever-cancelled": 300, "monitor:detached-outside": 3, "calls_of_callables_with_another_advertised_signature": 1}
+MINIMUMS = {"monitor:children-done-at-exit": 3000, "pending_at_body_end": 1500, "aborted_groups": 1000, "grandchildren": 100, "monitor:forever-cancelled": 300, "monitor:detached-outside": 3, "calls_of_callables_with_another_advertised_signature": 1, "spawns_from_callbacks_firing_after_their_scope_was_left": 16}
 JOBS = {"quick": 4, "thorough": 16}
 OPTIMIZED_SHARDS = {"quick": 2, "thorough": 8}  # the same cases once more under `python -O`
 LEVEL_TEXT = (
@@ -253,6 +253,84 @@ def detached(R: Recorder) -> None:
         R.monitor("detached-outside", bool(ok), where={"kind": "detached-spawn-broken", "variant": variant}, detail=f"status={status} value={value!r} out={out}", case={"detached": variant})
 
 
+def late_callbacks(R: Recorder) -> None:
+    """a loop callback armed by the body of a scope (a timer, a done-callback of some foreign future: it carries the body's context) fires
+    right after the block has been left and calls ctx.spawn: the finished scope either refuses the task or - at the very least - nothing
+    it accepted is still running now that its block is over"""
+    from haiway import ctx
+
+    class BodyFailed(Exception):
+        pass
+
+    class BodyBase(BaseException):
+        pass
+
+    for body, earlier, nested in itertools.product(("return", "raise-exc", "raise-base", "raise-genexit"), ("nothing", "a-finished-task"), (True, False)):
+        out: dict[str, Any] = {"spawned": [], "refused": [], "steps": []}
+        case = {"late_callback": True, "body": body, "spawned_earlier": earlier, "nested": nested}
+
+        async def main(loop: Any, body: str = body, earlier: str = earlier, nested: bool = nested) -> None:
+            release = loop.create_future()
+
+            async def work() -> None:
+                out["steps"].append("work started")
+                await release
+                out["steps"].append("work finished")
+
+            async def quick() -> None:
+                out["steps"].append("quick")
+
+            def late_spawn() -> None:
+                try:
+                    out["spawned"].append(ctx.spawn(work))
+                except BaseException as exc:  # noqa: BLE001
+                    out["refused"].append(exc)
+
+            async def block() -> None:
+                async with ctx.scope("inner"):  # (no resources: releasing them suspends, the scope would still be open when the callback fires)
+                    if earlier == "a-finished-task":
+                        await ctx.spawn(quick)
+                    loop.call_soon(late_spawn)  # fires on the next loop iteration: the block below ends without suspending again
+                    if body == "raise-exc":
+                        raise BodyFailed("body")
+                    if body == "raise-base":
+                        raise BodyBase("body")
+                    if body == "raise-genexit":
+                        raise GeneratorExit("body")
+
+            async def program() -> None:
+                try:
+                    await block()
+                except (BodyFailed, BodyBase, GeneratorExit):
+                    pass
+                out["left"] = True
+                for _ in range(4):
+                    await asyncio.sleep(0)
+                out["running_after_block"] = [t for t in out["spawned"] if not t.done()]
+
+            try:
+                if nested:
+                    async with ctx.scope("outer"):
+                        await program()
+                else:
+                    await program()
+                out["outer_left"] = True
+            finally:
+                leftovers = [t for t in out["spawned"] if not t.done()]
+                out["running_after_everything"] = len(leftovers)
+                release.set_result(None)
+                await asyncio.gather(*out["spawned"], return_exceptions=True)
+
+        status, value, loop = run_virtual(main, max_iterations=5000)
+        R.case(case, nontrivial=True)
+        R.count("spawns_from_callbacks_firing_after_their_scope_was_left")
+        running = out.get("running_after_block")
+        ok = status == "ok" and out.get("left") and not running and (out["refused"] or not out["spawned"] or all(t.done() for t in out["spawned"]))
+        R.monitor("children-done-at-exit", bool(ok), where={"kind": "accepted-by-a-finished-scope" if running else f"run-{status}", "body": body, "spawned_earlier": earlier, "nested": nested},
+                  detail=f"status={status} value={value!r}; a callback armed by the body of 'inner' called ctx.spawn after the block was left: refused={out['refused']!r} accepted={len(out['spawned'])}, "
+                         f"still running after the block: {running!r}; steps={out['steps']}", case=case)
+
+
 def cases(tier: str, rng: random.Random):  # noqa: ANN201
     for body in BODIES:
         for n in (1, 2):
@@ -349,6 +427,7 @@ def run(R: Recorder, tier: str, seed: int, shard: int, nshards: int) -> None:
     R.flags["exhaustive_core"] = "all programs with <= 2 spawned tasks (9 scripts x 4 spawn sites (body, nested sync scope, update, loop callback) x 5 body outcomes) x all gate-release orders (capped)"
     if shard == 0:
         detached(R)
+        late_callbacks(R)
         factories(R)
         argnames.check_ctx_entry_points(R, "spawn-factory", "spawn")
         argnames.check_injecting_ctx(R, "spawn-factory", "spawn")
@@ -362,6 +441,9 @@ def run(R: Recorder, tier: str, seed: int, shard: int, nshards: int) -> None:
 def replay(R: Recorder, rec: dict[str, Any]) -> None:
     if "detached" in rec:
         detached(R)
+        return
+    if "late_callback" in rec:
+        late_callbacks(R)
         return
     if "factory" in rec:
         factories(R)
